@@ -7,9 +7,9 @@ OUTSIDE = [
     'signature checks only as one signature per curve on two curves',
     'real-kernel cross-talk inside fpylll / gmpy2',
     'batches larger than 2 (3 for the aggregate plumbing)',
-    'CheckOpensslDenylist / CheckKeypairDenylist (string formatting / hash of '
-    'the modulus cannot stay symbolic): covered only by the concrete '
-    'differential oracle when a counterexample is replayed',
+    'CheckOpensslDenylist in relational form (its criterion is C06); '
+    'CheckKeypairDenylist runs with a symbolic table key and a generator '
+    'stub that is a function of (seed, size)',
 ]
 ASSUMPTIONS = [
     'numeric kernels are deterministic functions of their arguments '
